@@ -276,6 +276,12 @@ theorem fixOne_append {ra rb : List Stmt} {i : Nat} {s x : Stmt} (hi : i < ra.le
 def BranchInside (n : Nat) (x : List Stmt) : Prop :=
   ∀ s ∈ x, s.operand.kind = .relative → ∀ b, s.pkg.additional.int? = some b → b ≤ n
 
+theorem fixFit_append {ra rb : List Stmt} {i : Nat} {s x : Stmt} (hi : i < ra.length)
+    (hb : s.operand.kind = .relative → ∀ b, s.pkg.additional.int? = some b → b ≤ ra.length)
+    (h : fixFit ra i s = .ok x) : fixFit (ra ++ rb) i s = .ok x := by
+  obtain ⟨s1, h1, h2⟩ := fixFit_ok.1 h
+  exact fixFit_ok.2 ⟨s1, fixOne_append hi hb h1, h2⟩
+
 theorem fixAll_append_ok (ss : List Stmt) : ∀ (x y : List Stmt) (i : Nat) (r : List Stmt),
     fixAll ss i (x ++ y) = .ok r →
     ∃ rx ry, fixAll ss i x = .ok rx ∧ fixAll ss (i + x.length) y = .ok ry ∧ r = rx ++ ry := by
@@ -284,9 +290,9 @@ theorem fixAll_append_ok (ss : List Stmt) : ∀ (x y : List Stmt) (i : Nat) (r :
   | nil => intro y i r h; exact ⟨[], r, rfl, by simpa using h, rfl⟩
   | cons s rest ih =>
     intro y i r h
-    rw [List.cons_append, fixAll] at h
-    rw [fixAll]
-    cases h1 : fixOne ss i s with
+    rw [List.cons_append, fixAll_cons] at h
+    rw [fixAll_cons]
+    cases h1 : fixFit ss i s with
     | ok s' =>
       rw [h1] at h
       dsimp only at h ⊢
@@ -309,11 +315,11 @@ theorem fixAll_mono {ra rb : List Stmt} : ∀ (x : List Stmt) (i : Nat) (r : Lis
   | nil => intro i r _ _ h; exact h
   | cons s rest ih =>
     intro i r hlen hb h
-    rw [fixAll] at h ⊢
-    cases h1 : fixOne ra i s with
+    rw [fixAll_cons] at h ⊢
+    cases h1 : fixFit ra i s with
     | ok s' =>
       rw [h1] at h
-      rw [fixOne_append (by simp at hlen; omega) (hb s (by simp)) h1]
+      rw [fixFit_append (by simp at hlen; omega) (hb s (by simp)) h1]
       dsimp only at h ⊢
       cases h2 : fixAll ra (i + 1) rest with
       | ok r2 =>
